@@ -46,12 +46,12 @@ Prologue == <<
                 [k |-> "liquidate", from |-> "vx1", to |-> "a3", amt |-> "1500000000000000000000"],
                 \* more DAO holders than a query page holds; a vesting account at the address of a4's next contract
                 [k |-> "dao_scatter", from |-> "a5", n |-> 120, salt |-> 0, amt |-> "1000000000000000"],
-                [k |-> "pc_approve_agent", from |-> "a6", amt |-> "900000000000000000000000"],
+                [k |-> "pc_approve_agent", from |-> "v2", amt |-> "900000000000000000000000"],
                 [k |-> "convert_into_vesting", from |-> "a6", to |-> "next:a4", amt |-> "1000000000000000000", lock |-> 3000, vest |-> 3000,
                  merge |-> FALSE, stake |-> FALSE, val |-> 0, startOff |-> -20]>>),
     \* (the first unbonding of the history goes through the agent contract, after a zero-value call to the still empty
     \* not-bonded pool)
-    Blk(5000, <<[k |-> "agent_undelegate", from |-> "a6", val |-> 0, amt |-> "1000000000000000000", ping |-> "notbonded"],
+    Blk(5000, <<[k |-> "agent_undelegate", from |-> "v2", val |-> 1, amt |-> "1000000000000000000", ping |-> "notbonded"],
                 [k |-> "redeem", from |-> "a2", to |-> "a6", amt |-> "1000000000000000000000", id |-> 1],
                 [k |-> "deploy", from |-> "a4", slots |-> 2],
                 [k |-> "gov_toggle", from |-> "a1", id |-> 0],
@@ -61,7 +61,9 @@ Prologue == <<
               \o (IF Exports THEN <<[k |-> "gov_coinomics", from |-> "a2", enable |-> FALSE],
                     [k |-> "gov_vote", from |-> "v1", id |-> 2, opt |-> "yes"], [k |-> "gov_vote", from |-> "v2", id |-> 2, opt |-> "yes"],
                     [k |-> "gov_vote", from |-> "v3", id |-> 2, opt |-> "yes"]>> ELSE <<>>)),
-    Blk(61000, <<[k |-> "send", from |-> "a5", to |-> "a4", amt |-> "1000"], [k |-> "spray", from |-> "a3", salt |-> 0]>>) >>
+    \* ... and the validator it unbonds from then turns out to have double-signed: the slash reaches the fresh unbonding entry
+    \* (25 s: the voting period of 20 s is over, the unbonding time of 60 s is not)
+    [Blk(25000, <<[k |-> "send", from |-> "a5", to |-> "a4", amt |-> "1000"], [k |-> "spray", from |-> "a3", salt |-> 0]>>) EXCEPT !.evidence = <<1>>] >>
     \o (IF Exports THEN <<[ev |-> "export_import"]>> ELSE <<>>)
 
 Init == /\ hist = Prologue
@@ -69,7 +71,7 @@ Init == /\ hist = Prologue
         /\ dels = {<<"v1", 0>>, <<"v2", 1>>, <<"v3", 2>>} \cup {<<"a6", 0>>}  \* (delegator, validator index) pairs believed to exist
         /\ vfund = {<<"vx1", "a1">>, <<"vx2", "a2">>}     \* (vesting account, funder) pairs
         /\ daoh = {"a5"}                                  \* accounts believed to hold DAO shares
-        /\ agr = {} /\ fgr = {} /\ appr = {"a6"}
+        /\ agr = {} /\ fgr = {} /\ appr = {"v2"}
         /\ liq = {<<0, "a1">>, <<2, "a3">>}                                            \* (liquid denom id, holder) pairs believed to exist
 
 \* an existing delegation most of the time, an arbitrary pair otherwise
